@@ -5,8 +5,8 @@
   string; definitions appearing later in the file, and the environment when an earlier definition
   exists, never influence the result; resolution always terminates."
 
-  Property theorems only; lemmas and the auxiliary definitions (`vis`, `visiblePrefix`, `pruneObj`,
-  `pruneList`, `EnvLe`, `plainFrags`) are in Phil/Proofs/VarsLemmas.lean.  All statements hold for all
+  Property theorems only; lemmas and the auxiliary definitions (`vis`, `visiblePrefix`, `pruneBeforeObj`,
+  `pruneBeforeList`, `EnvLe`, `plainFrags`) are in Phil/Proofs/VarsLemmas.lean.  All statements hold for all
   inputs (every environment, every object tree — also trees no parser produces —, every fuel).
 
   Model: Phil/Vars.lean with `resolveWords` calling
@@ -91,12 +91,12 @@ theorem lexicalGet_frame_obj (fuel : Nat) (c1 c2 : Chain) (path : Str) (stopId :
 
 /-- **Frame property of lookup (deep).**  The shallow form cannot be applied when a later definition
     sits inside an *enclosing* scope, because that scope is itself a (visible) object of the next
-    level.  `pruneList stopId` cuts every level at the first object with id ≥ `stopId`, recursively in
+    level.  `pruneBeforeList stopId` cuts every level at the first object with id ≥ `stopId`, recursively in
     all scopes that remain.  Chains that agree after pruning find the same object up to pruning. -/
 theorem lexicalGet_frame_deep (fuel : Nat) (c1 c2 : Chain) (path : Str) (stopId : Nat) (up : Bool)
-    (h : c1.map (pruneList stopId) = c2.map (pruneList stopId)) :
-    (lexicalGet fuel c1 path stopId up).map (fun r => (pruneObj stopId r.1, r.2.map (pruneList stopId)))
-      = (lexicalGet fuel c2 path stopId up).map (fun r => (pruneObj stopId r.1, r.2.map (pruneList stopId))) :=
+    (h : c1.map (pruneBeforeList stopId) = c2.map (pruneBeforeList stopId)) :
+    (lexicalGet fuel c1 path stopId up).map (fun r => (pruneBeforeObj stopId r.1, r.2.map (pruneBeforeList stopId)))
+      = (lexicalGet fuel c2 path stopId up).map (fun r => (pruneBeforeObj stopId r.1, r.2.map (pruneBeforeList stopId))) :=
   Phil.lexicalGet_frame_deep fuel c1 c2 path stopId up h
 
 /-- **Later objects are irrelevant to lookup** (append form).  Appending to every level `k` of the
@@ -114,7 +114,7 @@ theorem later_irrelevant (fuel : Nat) (c : Chain) (extras : List (List Obj)) (pa
     environment and fuel.  (The whole transitive resolution is covered: referenced definitions have
     smaller ids, and pruning at a smaller id sees even less.) -/
 theorem later_definitions_irrelevant (env : Env) (fuel : Nat) (c1 c2 : Chain) (id : Nat)
-    (ws : List Word) (diff : Bool) (h : c1.map (pruneList id) = c2.map (pruneList id)) :
+    (ws : List Word) (diff : Bool) (h : c1.map (pruneBeforeList id) = c2.map (pruneBeforeList id)) :
     resolveWords env fuel c1 id ws diff = resolveWords env fuel c2 id ws diff :=
   Phil.resolveWords_frame env fuel c1 c2 id ws diff h
 
@@ -134,7 +134,7 @@ theorem resolveAt_later_irrelevant (env : Env) (root1 root2 : List Obj) (p : Lis
     (h1 : chainAt root1 p [] = some (.defn m ws, c1))
     (h2 : chainAt root2 p [] = some (.defn m ws, c2))
     (hid : m.id = some id)
-    (hc : c1.map (pruneList id) = c2.map (pruneList id))
+    (hc : c1.map (pruneBeforeList id) = c2.map (pruneBeforeList id))
     (hle : countObjs root1 ≤ countObjs root2)
     (hr : resolveAt env root1 p diff = .ok r) :
     resolveAt env root2 p diff = .ok r := by
@@ -226,7 +226,7 @@ example : resolveAt envAll docA [1] false = .ok [uw "1"] := by rfl
 
 /-- the later `a = 2` may be changed or removed: the chains agree after pruning at id 1 -/
 def docA' : List Obj := [dfn "a" 0 [uw "1"], dfn "x" 1 [uw "$a"]]
-example : [docA].map (pruneList 1) = [docA'].map (pruneList 1) := by rfl
+example : [docA].map (pruneBeforeList 1) = [docA'].map (pruneBeforeList 1) := by rfl
 example : resolveAt envAll docA' [1] false = .ok [uw "1"] := by rfl
 
 /-- ```
@@ -289,8 +289,8 @@ example : [docDeep].map (visiblePrefix 5) ≠ [docDeep'].map (visiblePrefix 5) :
   intro h
   have := congrArg (fun c => c.map (fun l => l.map (fun o => o.children.map (fun o' => o'.children.length)))) h
   exact absurd this (by decide)
-example : ((chainAt docDeep [0, 0, 0, 0, 1] []).map (fun r => r.2.map (pruneList 5)))
-    = ((chainAt docDeep' [0, 0, 0, 0, 1] []).map (fun r => r.2.map (pruneList 5))) := by rfl
+example : ((chainAt docDeep [0, 0, 0, 0, 1] []).map (fun r => r.2.map (pruneBeforeList 5)))
+    = ((chainAt docDeep' [0, 0, 0, 0, 1] []).map (fun r => r.2.map (pruneBeforeList 5))) := by rfl
 example : resolveAt envEmpty docDeep' [0, 0, 0, 0, 1] false = .ok [uw "1"] := by rfl
 
 /-- `resolveAt_later_irrelevant` applied: the result for `docDeep` follows from the one for the
